@@ -133,7 +133,7 @@ func goCorollaries(m *meta, key int, cs []call, ctx string) {
 }
 
 type stressCfg struct {
-	conf              kioshun.Config
+	conf               kioshun.Config
 	workers, keys, ops int
 	listeners, reent   bool
 	async              bool
@@ -663,6 +663,74 @@ func stalledProducer(m *meta, rng *rand.Rand, round int) {
 	m.count("stalled_producer_rounds")
 }
 
+// flickerProbe replays the schedule of C02.v's c02_atomic_refuted on the real cache through the yield hooks:
+// a reader parked after loading a matching tag, the key deleted and re-inserted into the same slot, the
+// writer parked between publish's item store and tag store. Finding F10 when it reproduces.
+func flickerProbe(m *meta) {
+	c, err := kioshun.New[int, int](kioshun.Config{MaxSize: 64, ShardCount: 1, EvictionPolicy: kioshun.SieveTinyLFU})
+	must(err)
+	defer c.Close()
+	const k = 5
+	c.Set(k, 1, kioshun.NoExpiration)
+	watch("flicker probe")
+	defer unwatch()
+	kioshun.VerifSchedReset(true, 300*time.Millisecond)
+	defer kioshun.VerifSchedReset(false, 0)
+	var r1 int
+	var ok1 bool
+	kioshun.VerifSchedSpawn(1, func() { r1, ok1 = c.Get(k) })
+	if p := stepUntil(1, 203); p != 203 {
+		m.count("flicker_setup_failed")
+		stepUntil(1, -100)
+		return
+	}
+	c.Delete(k)
+	kioshun.VerifSchedSpawn(2, func() { c.Set(k, 2, kioshun.NoExpiration) })
+	if p := stepUntil(2, 222); p != 222 {
+		m.count("flicker_setup_failed")
+		stepUntil(2, -100)
+		stepUntil(1, -100)
+		return
+	}
+	stepUntil(1, -100)  // reader 1 finishes: loads the item through the stale matching tag
+	r2, ok2 := c.Get(k) // reader 2, entirely after reader 1 returned
+	stepUntil(2, -100)  // the writer stores the tag and returns
+	kioshun.VerifSchedReset(false, 0)
+	r3, ok3 := c.Get(k)
+	if ok1 && r1 == 2 && !ok2 && ok3 && r3 == 2 {
+		m.known("KNOWN-FINDING: property=C02 during ONE in-flight Set(k) that re-inserts k into its old slot, three sequential Gets returned present(2) / absent / present(2): a reader that had loaded the slot's previous matching tag sees the new item before the tag is published (replayed on the real code through the yield hooks; schedule of c02_atomic_refuted)")
+	} else {
+		m.count("flicker_not_reproduced")
+		m.sample(fmt.Sprintf("flicker probe: r1=(%d,%v) r2=(%d,%v) r3=(%d,%v)", r1, ok1, r2, ok2, r3, ok3))
+	}
+}
+
+// listenerCloseProbe: a removal listener that calls Close blocks forever (finding F7).
+func listenerCloseProbe(m *meta) {
+	var c *kioshun.Cache[int, int]
+	done := make(chan struct{})
+	c, err := kioshun.New[int, int](kioshun.Config{MaxSize: 2, ShardCount: 1, EvictionPolicy: kioshun.LRU},
+		kioshun.WithOnRemove(func(k, v int, r kioshun.RemovalReason) {
+			c.Close()
+			select {
+			case <-done:
+			default:
+				close(done)
+			}
+		}))
+	must(err)
+	c.Set(1, 1, 0)
+	c.Set(2, 2, 0)
+	c.Set(3, 3, 0) // evicts -> listener -> Close from the notifier goroutine
+	select {
+	case <-done:
+		m.count("listener_close_returned")
+	case <-time.After(1500 * time.Millisecond):
+		m.known("KNOWN-FINDING: property=C07 a removal listener that calls Close() never returns: Close waits for the notifier goroutine that is running the listener")
+		m.known("KNOWN-FINDING: property=C08 Close() called from a removal listener never returns (same self-wait as the C07 finding)")
+	}
+}
+
 // expiryRace (C07 C05 C02): a short-TTL key re-written while readers hit its expiry path.
 func expiryRace(m *meta, rng *rand.Rand, round int) {
 	conf := kioshun.Config{MaxSize: pick(rng, []int64{8, 64}), ShardCount: 1, EvictionPolicy: pick(rng, []kioshun.EvictionPolicy{kioshun.SieveTinyLFU, kioshun.SieveTinyLFU, kioshun.LRU, kioshun.FIFO}), StatsEnabled: true}
@@ -870,6 +938,8 @@ func streamConc(o opts) {
 			m.sample(fmt.Sprintf("round %d scenario %d", r, r%4))
 		}
 	}
+	flickerProbe(m)
+	listenerCloseProbe(m)
 	w.Close()
 	m.Traces, m.Ops = w.traces, w.ops+int(m.Dist["stress_calls"])
 	m.write(o.out)
